@@ -3,7 +3,6 @@ use std::sync::atomic::{self, AtomicUsize};
 
 use skipfree::{SkipList, SkipListIterator};
 use sst::bounds_cursor::BoundsCursor;
-use sst::pruning_cursor::PruningCursor;
 use sst::{Cursor, Key, KeyRef};
 
 use super::WriteBatch;
@@ -66,12 +65,13 @@ impl MemTable {
         &self,
         start_bound: &Bound<T>,
         end_bound: &Bound<T>,
-        timestamp: u64,
+        _timestamp: u64,
     ) -> Result<MemTableCursor, SError> {
+        // NOTE(rescrv):  Do not prune here.  Tombstones must survive until the caller has merged
+        // this cursor with the older components they shadow; the caller prunes after the merge.
         let iter = self.skiplist.iter();
         let wrapper = SkipListIteratorWrapper { iter };
-        let cursor = PruningCursor::new(wrapper, timestamp)?;
-        let cursor = BoundsCursor::new(cursor, start_bound, end_bound)?;
+        let cursor = BoundsCursor::new(wrapper, start_bound, end_bound)?;
         Ok(MemTableCursor { cursor })
     }
 }
@@ -131,7 +131,7 @@ impl Cursor for SkipListIteratorWrapper {
 ////////////////////////////////////////// MemTableCursor //////////////////////////////////////////
 
 pub struct MemTableCursor {
-    cursor: BoundsCursor<PruningCursor<SkipListIteratorWrapper>>,
+    cursor: BoundsCursor<SkipListIteratorWrapper>,
 }
 
 impl Cursor for MemTableCursor {
